@@ -51,7 +51,7 @@ class C10(Check):
     ASSUMPTIONS = ['well-supported problems only (ill-posed fits are C09); x2 / 2-D fits excluded (deprecated by the code itself)',
                    'curves are compared at abscissae inside the returned knot range only',
                    'the documented procedure is cumulative: a point rejected in one pass is not re-admitted (inmask = previous mask)']
-    REQUIRED_COUNTERS = ('one_sided_limit_exactly_zero', 'good_points_sorted_bad_points_out_of_order', 'canary_sequences', 'fixed_point_optimality_checked', 'fixed_point_mask_checked', 'breakpoint_dropped_cases', 'permutations_checked', 'refits_observed', 'reference_loops_agreeing', 'maxiter0_cases',
+    REQUIRED_COUNTERS = ('starved_fixed_points_checked', 'few_points_exactly_order_usable', 'one_sided_limit_exactly_zero', 'good_points_sorted_bad_points_out_of_order', 'canary_sequences', 'fixed_point_optimality_checked', 'fixed_point_mask_checked', 'breakpoint_dropped_cases', 'permutations_checked', 'refits_observed', 'reference_loops_agreeing', 'maxiter0_cases',
                          'nonpositive_weight_points', 'outliers_flagged', 'deletion_checks', 'invvar_none_cases', 'float32_cases')
     CASE_CPU_S = 120
 
@@ -60,9 +60,12 @@ class C10(Check):
         self.B = B
         self._lastfit = None
 
+        self._statuses = []
+
         def fit_seen(a, k, r):
             # the data and weights the last refit received (in iterfit's own, sorted, order) and the status it returned
             self._lastfit = tuple(np.array(v, dtype='f8') for v in a[1:4]) + (int(r[0]),)
+            self._statuses.append(int(r[0]))
         self.rec.wrap(B.bspline, 'fit', result=fit_seen)
         self.rec.wrap(B, 'djs_reject')
         self.rec.wrap(B, 'iterfit')
@@ -77,11 +80,57 @@ class C10(Check):
     def budget(self, tier):
         k = 1 if tier == 'quick' else 100
         return {'random': 500 * k, 'strong_outliers': 150 * k, 'maxiter0': 100 * k, 'invvar_none': 60 * k, 'float32': 80 * k,
-                'gap': 150 * k}
+                'gap': 150 * k, 'starved': 120 * k, 'few_points': 120 * k}
 
     # ------------------------------------------------------------------ gen
     def gen(self, cls, rng, i):
         g = np_rng(rng)
+        if cls == 'starved':
+            # a cosmic-ray hit: every point of one or two breakpoint intervals is a strong outlier, so that rejection leaves those
+            # intervals without data; fitted the way combine1fiber does (requiren=1: a breakpoint whose interval holds no usable
+            # point is dropped before each fit), with explicit breakpoints
+            k = rng.randint(2, 5)
+            nint = rng.randint(8, 20)
+            n = rng.randint(12, 30) * nint
+            x = np.sort(g.uniform(0, 10, n))
+            x[0], x[-1] = 0.0, 10.0
+            sig = 10 ** rng.uniform(-2, 0)
+            y = np.polyval(g.normal(size=k), (x - 5) / 5) * rng.uniform(0.5, 3) + g.normal(0, sig, n)
+            iv = np.full(n, 1.0 / sig ** 2) * 10 ** g.uniform(-0.3, 0.3, n)
+            edges = np.linspace(0, 10, nint + 1)
+            hit = sorted(rng.sample(range(2, nint - 2), rng.choice([1, 1, 2])))
+            io = np.nonzero(np.isin(np.searchsorted(edges, x, side='right') - 1, hit))[0]
+            y[io] += g.uniform(30, 80, io.size) / np.sqrt(iv[io]) * (g.choice([-1, 1], io.size) if rng.random() < 0.7 else rng.choice([-1, 1]))
+            bad = g.uniform(size=n) < rng.choice([0, 0.03])
+            bad[io] = False
+            bad[[0, -1]] = False
+            iv[bad] = 0.0
+            p = g.permutation(n) if rng.random() < 0.5 else np.arange(n)
+            return {'kind': cls, 'x': x[p].tolist(), 'y': y[p].tolist(), 'iv': iv[p].tolist(), 'dtype': 'f8', 'nord': k,
+                    'bkpt': edges.tolist(), 'upper': float(rng.choice([5, 4, 8])), 'lower': float(rng.choice([5, 4, 8])),
+                    'maxiter': rng.choice([5, 10, 20]), 'hit': hit, 'perm_seed': rng.getrandbits(32)}
+        if cls == 'few_points':
+            # a heavily masked chunk: exactly order, order+1 or order+2 usable points on a single breakpoint interval (nbkpts=2,
+            # a bkspace of the whole range, a two-element bkpt) carrying a polynomial of degree < order without noise, among
+            # any number of zero / negative weight points
+            k = rng.randint(2, 5)
+            ngood = k + rng.choice([0, 0, 0, 1, 2])
+            nbad = rng.choice([0, 1, 3, 10, 40])
+            xg = np.sort(g.uniform(0, 10, ngood))
+            xg[0], xg[-1] = 0.0, 10.0
+            xg[1:-1] = np.linspace(0, 10, ngood + 2)[2:-2 or None][: ngood - 2] + g.uniform(-0.3, 0.3, ngood - 2) if ngood > 2 else xg[1:-1]
+            xb = g.uniform(0.2, 9.8, nbad)
+            x = np.concatenate([xg, xb])
+            pc = g.normal(size=k)
+            y = np.polyval(pc, (x - 5) / 5)
+            y[ngood:] += g.normal(0, 5, nbad)
+            iv = np.concatenate([10 ** g.uniform(-0.3, 0.3, ngood), g.choice([0.0, 0.0, -1.0], nbad)])
+            p = g.permutation(x.size)
+            opt = rng.choice(['nbkpts', 'bkspace', 'bkpt'])
+            val = {'nbkpts': 2, 'bkspace': rng.choice([10.0, 10.5, 25.0]), 'bkpt': [0.0, 10.0]}[opt]
+            return {'kind': cls, 'x': x[p].tolist(), 'y': y[p].tolist(), 'iv': iv[p].tolist(), 'dtype': 'f8', 'nord': k,
+                    'opt': opt, 'optval': val, 'upper': 5.0, 'lower': 5.0, 'maxiter': rng.choice([0, 1, 3, 10]),
+                    'poly': pc.tolist(), 'ngood': ngood}
         k = rng.randint(2, 5)
         n = rng.randint(80, 400)
         m = rng.randint(0, 2)
@@ -212,7 +261,89 @@ class C10(Check):
                 res.append(('raised', type(e).__name__, str(e)[:80]))
         return res
 
+    def run_few_points(self, case, out):
+        x, y, iv = (np.array(case[n]) for n in ('x', 'y', 'iv'))
+        k = case['nord']
+        kw = {case['opt']: np.array(case['optval']) if case['opt'] == 'bkpt' else case['optval'], 'nord': k, 'upper': case['upper'],
+              'lower': case['lower'], 'maxiter': case['maxiter']}
+        with warnings.catch_warnings():
+            warnings.simplefilter('ignore')
+            with np.errstate(all='ignore'):
+                s, m = self.B.iterfit(x, y, invvar=iv, **kw)
+        pos = iv > 0
+        out.count('few_points_cases')
+        out.count('few_points_exactly_order_usable', int(pos.sum()) == k)
+        out.expect(isinstance(m, np.ndarray) and m.shape == x.shape and bool(np.array_equal(m, pos)), 'weights',
+                   '%d usable points on a noise-free polynomial of degree %d, order %d: the mask is not (invvar > 0); %d usable points flagged False'
+                   % (int(pos.sum()), k - 1, k, int((pos & ~np.asarray(m, dtype=bool)).sum())))
+        try:
+            with np.errstate(all='ignore'):
+                c, vm = s.value(x)
+        except Exception as e:
+            out.fail('maxiter0' if case['maxiter'] == 0 else 'procedure-curve', 'the returned spline set cannot be evaluated: %s: %s'
+                     % (type(e).__name__, str(e)[:100]), usable=int(pos.sum()), order=k)
+            return
+        p = np.polyval(np.array(case['poly']), (x - 5) / 5)
+        dev = float(np.abs(np.asarray(c, dtype='f8') - p).max())
+        out.expect(dev <= 1e-7 * max(1.0, float(np.abs(p).max())), 'maxiter0' if case['maxiter'] == 0 else 'procedure-curve',
+                   'the weighted fit of order %d through %d usable points of a degree-%d polynomial differs from it by %.3g'
+                   % (k, int(pos.sum()), k - 1, dev))
+        out.nontrivial = True
+        out.info.update(order=k, n=x.size, usable=int(pos.sum()), maxiter=case['maxiter'], opt=case['opt'])
+
+    def run_starved(self, case, out):
+        x, y, iv = (np.array(case[n]) for n in ('x', 'y', 'iv'))
+        k = case['nord']
+
+        def call(w, maxiter):
+            self._statuses = []
+            self._lastfit = None
+            with warnings.catch_warnings():
+                warnings.simplefilter('ignore')
+                with np.errstate(all='ignore'):
+                    s, m = self.B.iterfit(x, y, invvar=w, nord=k, bkpt=np.array(case['bkpt']), requiren=1, upper=case['upper'],
+                                          lower=case['lower'], maxiter=maxiter)
+                    c = np.asarray(s.value(x)[0], dtype='f8')
+            return s, np.asarray(m, dtype=bool), c, list(self._statuses), self._lastfit
+        s, m, c, st, last = call(iv, case['maxiter'])
+        pos = iv > 0
+        out.count('starved_cases')
+        out.expect(not bool(np.any(m[~pos])), 'weights', 'point with non-positive inverse variance flagged good')
+        edges = np.array(case['bkpt'])
+        cell = np.searchsorted(edges, x, side='right') - 1
+        emptied = [h for h in case['hit'] if not np.any(m[cell == h])]
+        out.count('starved_intervals_emptied_by_rejection', len(emptied))
+        o = np.argsort(x, kind='stable')
+        converged = last is not None and bool(np.array_equal(last[2] > 0, m[o]))
+        if not emptied or not converged or any(v != 0 for v in st):
+            out.count('starved_not_decidable_no_convergence_or_failed_refit', bool(emptied))
+            out.undecide()
+            return
+        # the end state of a converged run is a fixed point: the same data with the rejected points given zero weight from the
+        # start lead to the same breakpoints and the same curve (with requiren=1 the dropped breakpoints are a function of the
+        # usable points alone: those whose interval holds none)
+        s2, m2, c2, st2, last2 = call(np.where(m, iv, 0.0), case['maxiter'])
+        if any(v != 0 for v in st2):
+            out.undecide()
+            return
+        inside = (x >= edges[0]) & (x <= edges[-1])
+        out.expect(bool(np.array_equal(np.asarray(s.mask, dtype=bool), np.asarray(s2.mask, dtype=bool))), 'outliers',
+                   'rejected points keep influencing the fit: with them at zero weight from the start breakpoints %s are dropped, '
+                   'after rejecting them %s' % (np.nonzero(~np.asarray(s2.mask, dtype=bool))[0].tolist(),
+                                                np.nonzero(~np.asarray(s.mask, dtype=bool))[0].tolist()), emptied=emptied)
+        both = np.isfinite(c) & np.isfinite(c2) & inside & m
+        ys = max(float(np.abs(y[m]).max()), 1e-300)
+        dev = float(np.abs(c - c2)[both].max()) if both.any() else 0.0
+        out.expect(bool(np.array_equal(m2, m)) and dev <= 1e-6 * ys, 'outliers',
+                   'the curve is affected by rejected outliers: with them at zero weight from the start it differs by %.3g (scale %.3g), '
+                   'masks differ at %d points' % (dev, ys, int((m2 != m).sum())), emptied=emptied)
+        out.count('starved_fixed_points_checked')
+        out.nontrivial = True
+        out.info.update(order=k, n=x.size, emptied=emptied, fits=len(st))
+
     def run(self, case, out):
+        if case['kind'] in ('starved', 'few_points'):
+            return getattr(self, 'run_' + case['kind'])(case, out)
         dt = case['dtype']
         x = np.array(case['x'], dtype=dt)
         y = np.array(case['y'], dtype=dt)
